@@ -57,7 +57,7 @@ def ensure_facts(repo=REPO, verbose=True):
         hsh = tree_hash(repo)
         out = os.path.join(CACHE, 'facts', hsh)
         done = os.path.join(out, 'DONE')
-        if os.path.exists(done) and all(os.path.exists(os.path.join(out, f)) for f in FACT_FILES):
+        if os.path.exists(done) and all(os.path.exists(os.path.join(out, f)) for f in FACT_FILES + ['diagnostics.json']):
             os.utime(out)
             return out, json.load(open(done))
         if os.path.isdir(out):
@@ -71,19 +71,37 @@ def ensure_facts(repo=REPO, verbose=True):
                 shutil.rmtree(fp, ignore_errors=True)
         env = dict(os.environ)
         env.update(LD_LIBRARY_PATH=_sysroot() + '/lib', CARGO_INCREMENTAL='0', CARGO_NET_OFFLINE='true',
-                   RUSTFLAGS='-Zmir-opt-level=0 -Awarnings', RUSTC_WORKSPACE_WRAPPER=DRIVER,
+                   RUSTFLAGS='-Zmir-opt-level=0', RUSTC_WORKSPACE_WRAPPER=DRIVER,
                    VERIF_FACTS_DIR=out, VERIF_CRATES=CRATES, CARGO_TARGET_DIR=target)
         t0 = time.time()
-        p = subprocess.run(['cargo', '+nightly', 'check', '--offline', '-p', 'server', '--lib', '--bins'], cwd=repo, env=env,
-                           stdout=subprocess.PIPE, stderr=subprocess.STDOUT, text=True)
+        p = subprocess.run(['cargo', '+nightly', 'check', '--offline', '-p', 'server', '--lib', '--bins', '--message-format=json'], cwd=repo, env=env,
+                           stdout=subprocess.PIPE, stderr=subprocess.PIPE, text=True)
         dt = time.time() - t0
         if p.returncode != 0:
-            sys.stderr.write(p.stdout[-6000:])
+            sys.stderr.write(p.stderr[-6000:])
             raise RuntimeError('fact extraction failed: the tree does not type-check under cargo +nightly check')
         missing = [f for f in FACT_FILES if not os.path.exists(os.path.join(out, f))]
         if missing:
-            sys.stderr.write(p.stdout[-3000:])
+            sys.stderr.write(p.stderr[-3000:])
             raise RuntimeError('fact files missing after extraction: %s' % missing)
+        # rustc's own diagnostics for the workspace members (A17): kept beside the facts
+        diags, artifacts = [], 0
+        for line in p.stdout.splitlines():
+            if not line.startswith('{'):
+                continue
+            try:
+                m = json.loads(line)
+            except ValueError:
+                continue
+            if m.get('reason') == 'compiler-artifact':
+                artifacts += 1
+            elif m.get('reason') == 'compiler-message':
+                d = m['message']
+                sp = [x for x in d.get('spans', []) if x.get('is_primary')] or d.get('spans', [])
+                diags.append({'level': d.get('level'), 'code': (d.get('code') or {}).get('code'), 'message': d.get('message'),
+                              'file': sp[0]['file_name'] if sp else None, 'line': sp[0]['line_start'] if sp else None,
+                              'text': (sp[0].get('text') or [{}])[0].get('text', '').strip() if sp else ''})
+        json.dump({'artifacts': artifacts, 'diagnostics': diags}, open(os.path.join(out, 'diagnostics.json'), 'w'), indent=1)
         info = {'hash': hsh, 'extract_s': round(dt, 1), 'crates': {}}
         for f in FACT_FILES:
             with open(os.path.join(out, f)) as fh:
